@@ -23,6 +23,11 @@ Theorem C14_registrations_nodup :
   nodup_str (map (fun r => fst (fst r)) Gen.ClangDelta.registrations) = true.
 Proof. vm_compute. reflexivity. Qed.
 
+(* ... and unconditionally: no registration sits inside a preprocessor conditional, so every build of
+   clang_delta knows every name the shipped groups use *)
+Theorem C14_registrations_unconditional : Gen.ClangDelta.conditional_registrations = [].
+Proof. vm_compute. reflexivity. Qed.
+
 (* exit codes: exit(-1) of clang_delta is 255 and ErrorInvalidCounter is 1 — exactly the codes the
    driver maps to STOP (clang.py: 255 and 1; clangbinarysearch.py: 255); clex's OK / STOP are the
    two codes clex.py tests for *)
